@@ -81,7 +81,7 @@ class C11(Property):
             "judged by the reference deciders, plus 600 per quick run of dense frameworks of mutual attacks and of chains of bridged semantic gadgets (6-22 arguments, every argument queried for PR/CO/ST: many complete sets, long preferred searches, skeptically accepted arguments outside the grounded extension); for each: argument permutation + attack-line permutation and duplication, disjoint union with another framework "
             "(with and without stable extension), and the cross-semantics relations (GR in ID in PR, DS implies DC when an extension exists, ST=SST=STG when "
             "a stable extension exists) on the answers of all seven solvers; plus the two binaries on transformed input files (8-300 arguments): base file, permuted / duplicated lines, "
-            "union with an unrelated framework, Aspartix presentation with shuffled declarations - same status (same extension for GR / ID); non-trivial = framework with >= 10 arguments")
+            "union with an unrelated framework, Aspartix presentation with shuffled declarations - same status (same extension for GR / ID), and DC-CO = DC-PR on the same file and argument; non-trivial = framework with >= 10 arguments")
     assumptions = ["relations between runs need no reference computation; small frameworks (<= 9 arguments) are additionally judged by the proved deciders"]
 
     def cases(self, tier, rng):
@@ -336,6 +336,21 @@ class C11(Property):
                             cmd += ["-a", str(arg)]
                     jobs.append((gi, tag, cmd))
 
+        # "DC-CO equals DC-PR": the two problems on the same file and argument (the command line answers DC-PR through the
+        # complete solver; the two are nevertheless distinct problems with distinct dispatch arms)
+        pairs = []
+        seen_files = set()
+        for G in list(groups):
+            if G["files"]["base"] in seen_files:
+                continue
+            seen_files.add(G["files"]["base"])
+            a = rng.randrange(G["n"])
+            pi = len(pairs)
+            pairs.append(dict(arg=a, file=G["files"]["base"], res={}))
+            for sem in ("CO", "PR"):
+                cert = ["-c"] if rng.random() < 0.5 else []
+                jobs.append((("pair", pi), sem, [crust, "solve", "-f", G["files"]["base"], "-p", "DC-" + sem, "--logging-level", "off", "-a", str(a + 1)] + cert))
+
         def run(job):
             try:
                 pr = subprocess.run(job[2], stdout=subprocess.PIPE, stderr=subprocess.PIPE, timeout=300)
@@ -346,6 +361,9 @@ class C11(Property):
             results = list(ex.map(run, jobs))
         findings = []
         for (gi, tag, cmd), (rc, out) in zip(jobs, results):
+            if isinstance(gi, tuple):
+                pairs[gi[1]]["res"][tag] = (rc, (out.split("\n") + [""])[0], " ".join(cmd))
+                continue
             G = groups[gi]
             lines = [l for l in out.split("\n") if l]
             if rc != 0 or not lines:
@@ -389,7 +407,13 @@ class C11(Property):
                 elif G["task"] == "SE" and G["sem"] in ("GR", "ID") and eb is not None and e is not None and e != eb:
                     findings.append(Finding("input", None, "SE-%s: the unique extension differs under %s: %s vs %s | %s" % (G["sem"], what, sorted(eb)[:12], sorted(e)[:12], c[-170:]),
                                             "bin %s/SE · extension not invariant (%s)" % (G["sem"], tag), {"cmd_base": cb, "cmd": c, "file_base": open(G["files"]["base"]).read()[:3000], "file": open(G["files"][tag]).read()[:3000]}))
-        return findings, {"binary_runs_on_transformed_inputs": len(jobs), "binary_query_groups": len(groups),
+        for P in pairs:
+            if "CO" in P["res"] and "PR" in P["res"]:
+                (rc1, s1, c1), (rc2, s2, c2) = P["res"]["CO"], P["res"]["PR"]
+                if rc1 != 0 or rc2 != 0 or s1 != s2 or s1 not in ("YES", "NO"):
+                    findings.append(Finding("input", None, "DC-CO answers %r (exit %s) but DC-PR answers %r (exit %s) for argument %d | %s" % (s1, rc1, s2, rc2, P["arg"] + 1, c2[-150:]),
+                                            "bin CO,PR/DC · DC-CO differs from DC-PR", {"cmd_co": c1, "cmd_pr": c2, "file": open(P["file"]).read()[:3000]}))
+        return findings, {"binary_runs_on_transformed_inputs": len(jobs), "binary_query_groups": len(groups), "binary_dc_co_vs_dc_pr_pairs": len(pairs),
                           "binary_framework_sizes": sorted(set(G["n"] for G in groups))}
 
     def corpus(self):
